@@ -128,6 +128,46 @@ def first_output_write(c, body, out_local):
     return None
 
 
+def is_rowcount(n, xl, inits, depth=0):
+    """n is the row count of the batch parameter `xl`: x.nrows() / x.nsamples() / x.len_of(Axis(0)) / x.dim().0 /
+    x.shape()[0] / x.raw_dim()[0] / x.len() for 1-D - directly or through let bindings"""
+    n = peel_refs(n)
+    if depth > 4:
+        return False
+    kk = n.get("k")
+
+    def is_x(e):
+        e = peel_refs(e)
+        while e.get("k") == "MethodCall" and e["name"] in ("view", "records", "to_owned", "reborrow", "as_ref") and not e["args"]:
+            e = peel_refs(e["recv"])
+        return e.get("k") == "Path" and e.get("local") == xl
+
+    def axis0(a):
+        a = peel_refs(a)
+        return a.get("k") == "Call" and a["args"] and peel_refs(a["args"][0]).get("k") == "Lit" and peel_refs(a["args"][0]).get("v", "").startswith("0")
+    if kk == "MethodCall":
+        if n["name"] in ("nrows", "nsamples") and not n["args"] and is_x(n["recv"]):
+            return True
+        if n["name"] == "len_of" and len(n["args"]) == 1 and is_x(n["recv"]) and axis0(n["args"][0]):
+            return True
+    if kk == "Field" and n["name"] == "0":
+        b = peel_refs(n["e"])
+        if b.get("k") == "MethodCall" and b["name"] in ("dim", "raw_dim") and is_x(b["recv"]):
+            return True
+    if kk == "Index":
+        b = peel_refs(n["e"])
+        i = peel_refs(n["i"])
+        if b.get("k") == "MethodCall" and b["name"] in ("shape", "raw_dim") and is_x(b["recv"]) and i.get("k") == "Lit" and i.get("v", "").startswith("0"):
+            return True
+    if kk == "Path" and n.get("local") in inits:
+        which, init = inits[n["local"]]
+        if which == "whole":
+            return is_rowcount(init, xl, inits, depth + 1)
+        b = peel_refs(init)
+        return which == 0 and b.get("k") == "MethodCall" and b["name"] in ("dim", "raw_dim") and is_x(b["recv"])
+    return False
+
+
 def rule_shape(ctx):
     res = RuleResult("R-C03-shape", "predict_inplace checks batch rows against the output before writing it; default_target sizes its leading extent from the batch rows")
     F = ctx.facts()
@@ -147,11 +187,33 @@ def rule_shape(ctx):
                 res.info.append("exception: %s predicts a single observation (no rows)" % key)
                 continue
             body = r.e(fn["body"])
-            deleg = re.search(r"\.default_target\(%s\)" % re.escape(x), body)
-            m = re.search(r"::(zeros|default|ones|from_elem|uninit|from_shape_fn)\(\(?\s*([^,)]*\)?[^,)]*)", body)
-            first = m.group(2) if m else ""
-            if deleg or re.search(r"\b%s\b" % re.escape(x), first) and ROWCOUNT.search(first):
+            xl = fn["params"][1]["local"]
+            deleg = any(y.get("k") == "MethodCall" and y["name"] == "default_target" and y["args"] and peel_refs(y["args"][0]).get("local") == xl for y in walk(fn["body"]))
+            creations = []
+            for y in walk(fn["body"]):
+                if y.get("k") == "Call" and y["args"]:
+                    dd = c.dfn(strip(y["f"]).get("def")) if strip(y["f"]).get("k") == "Path" else None
+                    if dd and dd["krate"] == "ndarray" and dd["name"] in ("zeros", "default", "ones", "from_elem", "uninit", "from_shape_fn", "from_shape_simple_fn"):
+                        creations.append(y)
+            inits = {}
+            for y in walk(fn["body"]):
+                if y.get("k") == "LetStmt" and y.get("init") is not None:
+                    if y["pat"].get("k") == "Bind":
+                        inits[y["pat"]["local"]] = ("whole", y["init"])
+                    elif y["pat"].get("k") == "Tuple":
+                        for i_, q in enumerate(y["pat"]["pats"]):
+                            if q.get("k") == "Bind":
+                                inits[q["local"]] = (i_, y["init"])
+            okext = False
+            for cr in creations:
+                shp = strip(cr["args"][0])
+                first = strip(shp["es"][0]) if shp.get("k") == "Tup" and shp["es"] else shp
+                if is_rowcount(first, xl, inits):
+                    okext = True
+            if deleg or okext:
                 res.ok()
+            elif not creations:
+                res.undecided("%s : default-target-form" % key, "no array allocation recognised in default_target: %s" % body[:100], fn_loc(fn))
             else:
                 res.violate("%s : default-target-extent" % key, "default_target does not size its leading extent from the batch's row count: %s" % body[:100], fn_loc(fn))
             continue
